@@ -156,6 +156,7 @@ var _ = ws.StateServerSide
 
 //@ func NewCipherReader
 //@   props C02 C18
+//@   sig r mask -> _
 //@   ensures [new] result.r == r && result.mask == mask && result.pos == 0
 //@   ensures [fresh] result != nil
 //@   ensures [fresh] freshObj(result)
@@ -163,11 +164,13 @@ var _ = ws.StateServerSide
 
 //@ func CipherReader.Reset
 //@   props C02 C18
+//@   sig c r mask ->
 //@   ensures [asnew] c.r == r && c.mask == mask && c.pos == 0
 //@   assigns *c
 
 //@ func CipherReader.Read
 //@   props C02 C04 C15 C16
+//@   sig c p -> n err
 //@   requires [stream] streamOK(c.r) && c.r != nil
 //@   requires [pos]    0 <= c.pos && c.pos <= 1<<62
 //@   requires [sep]    notPartOf(p, c)
@@ -181,12 +184,14 @@ var _ = ws.StateServerSide
 
 //@ func NewCipherWriter
 //@   props C02 C18
+//@   sig w mask -> _
 //@   ensures [new] result.w == w && result.mask == mask && result.pos == 0
 //@   ensures  [nonnil] result != nil
 //@   assigns nothing
 
 //@ func CipherWriter.Reset
 //@   props C02 C18
+//@   sig c w mask ->
 //@   ensures [asnew] c.w == w && c.mask == mask && c.pos == 0
 //@   assigns *c
 
@@ -194,6 +199,7 @@ var _ = ws.StateServerSide
 // reached by earlier writes; the caller's slice is left untouched (C02, C17).
 //@ func CipherWriter.Write
 //@   props C02 C17
+//@   sig c p -> n err
 //@   requires [w]    c.w != nil && 0 <= c.pos && c.pos <= 1<<61 && len(p) <= 1<<47
 //@   ensures  [n]    0 <= n && n <= len(p) && (err == nil ==> n == len(p))
 //@   ensures  [len]  outLen(c.w) == old(outLen(c.w))+n
@@ -255,28 +261,33 @@ func lemmaReserve(state ws.State, size int, pay int) bool {
 
 //@ func lemmaReserve
 //@   props C06
+//@   sig state size pay -> _
 //@   requires [dom] 0 <= pay && 0 <= size && size <= 1<<47 && pay <= size-specReserve(state, size)
 //@   ensures  [fits] result
 
 //@ func reserve
 //@   props C06 C18
+//@   sig state n -> offset
 //@   ensures [spec] offset == specReserve(state, n)
 //@   assigns nothing
 
 //@ func headerSize
 //@   props C06 C08
+//@   sig s n -> _
 //@   requires [n] n >= 0
 //@   ensures [spec] result == specHdrLen(n, s&ws.StateClientSide != 0)
 //@   assigns nothing
 
 //@ func Writer.initBuf
 //@   props C06 C18
+//@   sig w ->
 //@   requires [room] len(w.raw) > specReserve(w.state, len(w.raw)) && len(w.raw) <= 1<<47
 //@   ensures  [inv]  invBuf(w)
 //@   assigns w.buf
 
 //@ func NewWriterBuffer
 //@   props C06 C18
+//@   sig dest state op buf -> _
 //@   requires [room] len(buf) > specReserve(state, len(buf)) && len(buf) <= 1<<47 && op < 16
 //@   ensures  [new]  result.dest == dest && result.state == state && result.op == op && sameSlice(result.raw, buf)
 //@   ensures  [zero] result.n == 0 && !result.dirty && result.fseq == 0 && len(result.extensions) == 0 && !result.noFlush && result.err == nil
@@ -286,6 +297,7 @@ func lemmaReserve(state ws.State, size int, pay int) bool {
 
 //@ func Writer.Reset
 //@   props C18 C06 C13
+//@   sig w dest state op ->
 //@   requires [room] len(w.raw) > specReserve(state, len(w.raw)) && len(w.raw) <= 1<<47 && op < 16
 //@   ensures  [asnew] w.dest == dest && w.state == state && w.op == op && sameSlice(w.raw, old(w.raw))
 //@   ensures  [zero]  w.n == 0 && !w.dirty && w.fseq == 0 && len(w.extensions) == 0 && !w.noFlush && w.err == nil
@@ -294,33 +306,39 @@ func lemmaReserve(state ws.State, size int, pay int) bool {
 
 //@ func Writer.ResetOp
 //@   props C18 C06 C13
+//@   sig w op ->
 //@   ensures [op]   w.op == op && w.n == 0 && !w.dirty && w.fseq == 0
 //@   ensures [keep] w.noFlush == old(w.noFlush) && len(w.extensions) == old(len(w.extensions)) && w.dest == old(w.dest) && w.state == old(w.state)
 //@   assigns w.op, w.n, w.dirty, w.fseq
 
 //@ func Writer.opCode
 //@   props C06
+//@   sig w -> _
 //@   ensures [first] w.fseq <= 0 ==> result == w.op
 //@   ensures [cont]  w.fseq > 0 ==> result == ws.OpContinuation
 //@   assigns nothing
 
 //@ func Writer.Size
 //@   props C06
+//@   sig w -> _
 //@   ensures [v] result == len(w.buf)
 //@   assigns nothing
 
 //@ func Writer.Available
 //@   props C06
+//@   sig w -> _
 //@   ensures [v] result == len(w.buf)-w.n
 //@   assigns nothing
 
 //@ func Writer.Buffered
 //@   props C06
+//@   sig w -> _
 //@   ensures [v] result == w.n
 //@   assigns nothing
 
 //@ func bytesWriter.Write
 //@   props C06
+//@   sig w p -> _ _
 //@   requires [pos] 0 <= w.pos && w.pos <= len(w.buf)
 //@   requires [sep] notPartOf(p, w) && !sameBase(p, w.buf)
 //@   ensures  [n]   result0 == iteInt(len(p) < len(w.buf)-old(w.pos), len(p), len(w.buf)-old(w.pos)) && w.pos == old(w.pos)+result0
@@ -368,6 +386,7 @@ func specExtLen(n int) int {
 
 //@ func Writer.flushFragment
 //@   props C06 C13 C16
+//@   sig w fin -> err
 //@   locals payload:[]byte header:ws.Header ext:SendExtension offset:int skip:int buf:bytesWriter err:error
 //@   call ws.WriteHeader inline
 //@   call bytesWriter.Write inline
@@ -398,6 +417,7 @@ func clientSide(s ws.State) bool { return s&ws.StateClientSide != 0 }
 
 //@ func Writer.FlushFragment
 //@   props C06 C16 C13
+//@   sig w -> _
 //@   requires [ready] writerReady(w)
 //@   ensures  [noop]  old(w.n) == 0 || old(w.err) != nil ==> outCalls(w.dest) == old(outCalls(w.dest)) && outLen(w.dest) == old(outLen(w.dest)) && result == old(w.err) && w.n == old(w.n) && w.fseq == old(w.fseq) && w.err == old(w.err)
 //@   ensures  [one]   old(w.n) > 0 && old(w.err) == nil ==> outCalls(w.dest) == old(outCalls(w.dest))+1 && w.n == 0 && w.fseq == old(w.fseq)+1 && w.err == result
@@ -412,6 +432,7 @@ func clientSide(s ws.State) bool { return s&ws.StateClientSide != 0 }
 
 //@ func Writer.Flush
 //@   props C06 C16 C08 C13
+//@   sig w -> _
 //@   requires [ready] writerReady(w)
 //@   ensures  [noop]  (!old(w.dirty) && old(w.n) == 0) || old(w.err) != nil ==> outCalls(w.dest) == old(outCalls(w.dest)) && outLen(w.dest) == old(outLen(w.dest)) && result == old(w.err) && w.n == old(w.n) && w.fseq == old(w.fseq) && w.err == old(w.err) && w.dirty == old(w.dirty)
 //@   ensures  [one]   (old(w.dirty) || old(w.n) > 0) && old(w.err) == nil ==> outCalls(w.dest) == old(outCalls(w.dest))+1 && w.n == 0 && w.fseq == 0 && !w.dirty && w.err == result
@@ -426,6 +447,7 @@ func clientSide(s ws.State) bool { return s&ws.StateClientSide != 0 }
 
 //@ func ceilPowerOfTwo
 //@   props C06
+//@   sig n -> _
 //@   requires [dom] 0 <= n && n < 1<<61
 //@   ensures  [gt]  result > n && result <= 2*n+1
 //@   ensures  [pow] result&(result-1) == 0
@@ -446,6 +468,7 @@ func ufSendRsv(x SendExtension, op ws.OpCode, fin bool, length int64, rsv byte) 
 
 //@ func Writer.WriteThrough
 //@   props C06 C13 C16 C17
+//@   sig w p -> n err
 //@   locals frame:ws.Frame x:SendExtension payload:[]byte
 //@   requires [ready] invWriter(w) && w.dest != nil && len(w.extensions) <= 1 && (len(w.extensions) == 1 ==> w.extensions[0] != nil) && len(p) <= 1<<47
 //@   cases side: w.state&ws.StateClientSide != 0 | !(w.state&ws.StateClientSide != 0)
@@ -468,6 +491,7 @@ func ufSendRsv(x SendExtension, op ws.OpCode, fin bool, length int64, rsv byte) 
 
 //@ func Writer.Grow
 //@   props C06
+//@   sig w n ->
 //@   locals size:int prevOffset:int nextOffset:int buffered:int cap:int p:[]byte
 //@   requires [inv]  invWriter(w) && 0 <= n && n <= 1<<41 && len(w.raw) <= 1<<43
 //@   ensures  [inv]  invWriter(w)
@@ -481,6 +505,7 @@ func ufSendRsv(x SendExtension, op ws.OpCode, fin bool, length int64, rsv byte) 
 
 //@ func Writer.Write
 //@   props C06 C16 C17
+//@   sig w p -> n err
 //@   locals nn:int
 //@   requires [ready] writerReady(w) && len(p) <= 1<<40 && len(w.raw) <= 1<<40 && notPartOf(p, w) && !sameBase(p, w.raw)
 //@   call Writer.Available inline
@@ -508,6 +533,7 @@ func ufSendRsv(x SendExtension, op ws.OpCode, fin bool, length int64, rsv byte) 
 
 //@ func NewWriterBufferSize
 //@   props C06 C18
+//@   sig dest state op n -> _
 //@   requires [n] n <= 1<<40 && op < 16 && DefaultWriteBuffer > 14 && DefaultWriteBuffer <= 1<<40 && (n <= 2 || n > specReserve(state, n))
 //@   ensures  [new]  result.dest == dest && result.state == state && result.op == op && fresh(result.raw)
 //@   ensures  [size] len(result.raw) == iteInt(n <= 2, DefaultWriteBuffer, n)
@@ -518,6 +544,7 @@ func ufSendRsv(x SendExtension, op ws.OpCode, fin bool, length int64, rsv byte) 
 
 //@ func NewWriterSize
 //@   props C06 C08 C18
+//@   sig dest state op n -> _
 //@   requires [n] n <= 1<<39 && op < 16 && DefaultWriteBuffer > 14 && DefaultWriteBuffer <= 1<<40
 //@   ensures  [new]  result.dest == dest && result.state == state && result.op == op && fresh(result.raw)
 //@   ensures  [size] n > 0 ==> len(result.buf) == n
@@ -528,6 +555,7 @@ func ufSendRsv(x SendExtension, op ws.OpCode, fin bool, length int64, rsv byte) 
 
 //@ func NewWriter
 //@   props C06 C18
+//@   sig dest state op -> _
 //@   requires [n] op < 16 && DefaultWriteBuffer > 14 && DefaultWriteBuffer <= 1<<40
 //@   ensures  [new]  result.dest == dest && result.state == state && result.op == op && fresh(result.raw)
 //@   ensures  [zero] result.n == 0 && !result.dirty && result.fseq == 0 && len(result.extensions) == 0 && !result.noFlush && result.err == nil
@@ -545,6 +573,7 @@ func invControlWriter(c *ControlWriter) bool {
 
 //@ func NewControlWriter
 //@   props C08
+//@   sig dest state op -> _
 //@   requires [op] op < 16 && dest != nil && DefaultWriteBuffer > 14 && DefaultWriteBuffer <= 1<<40
 //@   ensures  [inv] invControlWriter(result) && result.n == 0 && result.w.dest == dest && result.w.op == op && result.w.state == state && result.w.err == nil && !result.w.dirty
 //@   ensures  [nonnil] result != nil
@@ -552,6 +581,7 @@ func invControlWriter(c *ControlWriter) bool {
 
 //@ func NewControlWriterBuffer
 //@   props C08
+//@   sig dest state op buf -> _
 //@   requires [op]  op < 16 && dest != nil && len(buf) > specReserve(state, iteInt(len(buf) > 125+specHdrLen(125, clientSide(state)), 125+specHdrLen(125, clientSide(state)), len(buf)))
 //@   ensures  [inv] invControlWriter(result) && result.n == 0 && result.w.dest == dest && result.w.op == op && result.w.state == state && result.w.err == nil && !result.w.dirty
 //@   ensures  [nonnil] result != nil
@@ -559,6 +589,7 @@ func invControlWriter(c *ControlWriter) bool {
 
 //@ func ControlWriter.Write
 //@   props C08
+//@   sig c p -> n err
 //@   requires [inv] invControlWriter(c) && len(p) <= 1<<40 && notPartOf(p, c.w) && !sameBase(p, c.w.raw)
 //@   ensures  [overflow] old(c.n)+len(p) > c.limit ==> n == 0 && err == ErrControlOverflow && outCalls(c.w.dest) == old(outCalls(c.w.dest)) && c.n == old(c.n) && c.w.n == old(c.w.n)
 //@   ensures  [count] c.n == old(c.n)+n
@@ -568,6 +599,7 @@ func invControlWriter(c *ControlWriter) bool {
 
 //@ func ControlWriter.Flush
 //@   props C08
+//@   sig c -> _
 //@   requires [inv] invControlWriter(c)
 //@   ensures  [one]  outCalls(c.w.dest) <= old(outCalls(c.w.dest))+1
 //@   ensures  [final] outCalls(c.w.dest) == old(outCalls(c.w.dest))+1 && result == nil ==> outByte(c.w.dest, old(outLen(c.w.dest))) == 0x80|byte(c.w.op) && outLen(c.w.dest) == old(outLen(c.w.dest))+specHdrLen(old(c.w.n), clientSide(c.w.state))+old(c.w.n) && old(c.w.n) <= 125
@@ -670,6 +702,7 @@ func validUTF8State(state uint32) bool { return absUTF8(state) >= 0 }
 
 //@ func decode
 //@   props C07 C15
+//@   sig state codep b -> _ _
 //@   requires [state] validUTF8State(state)
 //@   ensures  [dfa]   absUTF8(result1) == specUTF8Step(absUTF8(state), b)
 //@   ensures  [valid] validUTF8State(result1)
@@ -688,26 +721,31 @@ func utf8FoldStep(s int, b byte) int { return specUTF8Step(s, b) }
 
 //@ func UTF8Reader.Valid
 //@   props C07
+//@   sig u -> _
 //@   ensures [v] result == (u.state == 0)
 //@   assigns nothing
 
 //@ func UTF8Reader.Accepted
 //@   props C07
+//@   sig u -> _
 //@   ensures [v] result == u.accepted
 //@   assigns nothing
 
 //@ func NewUTF8Reader
 //@   props C07 C18
+//@   sig r -> _
 //@   ensures [new] result != nil && result.Source == r && result.state == 0 && result.codep == 0 && result.accepted == 0
 //@   assigns nothing
 
 //@ func UTF8Reader.Reset
 //@   props C07 C18
+//@   sig u r ->
 //@   ensures [asnew] u.Source == r && u.state == 0 && u.codep == 0 && u.accepted == 0
 //@   assigns *u
 
 //@ func UTF8Reader.Read
 //@   props C07 C04 C15 C16
+//@   sig u p -> n err
 //@   locals accepted:int s:uint32 c:uint32 i:int
 //@   requires [src]   u.Source != nil && streamOK(u.Source) && validUTF8State(u.state) && u.state != 12 && notPartOf(p, u) && inErr(u.Source) != ErrInvalidUTF8
 //@   ensures  [n]     0 <= n && n <= len(p)
@@ -741,6 +779,7 @@ func utf8FoldStep(s int, b byte) int { return specUTF8Step(s, b) }
 
 //@ func Reader.readHeader
 //@   props C01 C04 C05 C15 C16
+//@   sig r in -> h err
 //@   requires [stream] streamOK(in) && in != nil
 //@   ensures  [cut2]   inEnd(in)-old(inPos(in)) < 2 ==> err != nil
 //@   ensures  [cut]    inEnd(in)-old(inPos(in)) >= 2 && inEnd(in)-old(inPos(in)) < ws.VSpecNeed(inByte(in, old(inPos(in))+1)) ==> err != nil
@@ -765,23 +804,27 @@ func idleReader(r *Reader) bool {
 
 //@ func NewReader
 //@   props C04 C18
+//@   sig r s -> _
 //@   ensures [new] result != nil && result.Source == r && result.State == s && !result.SkipHeaderCheck && !result.CheckUTF8 && len(result.Extensions) == 0 && result.MaxFrameSize == 0 && result.cr == nil
 //@   ensures [idle] idleReader(result)
 //@   assigns nothing
 
 //@ func Reader.fragmented
 //@   props C04 C05
+//@   sig r -> _
 //@   ensures [v] result == (r.State&ws.StateFragmented != 0)
 //@   assigns nothing
 
 //@ func Reader.reset
 //@   props C04 C07 C18
+//@   sig r ->
 //@   ensures [idle] idleReader(r)
 //@   ensures [same] r.Source == old(r.Source) && r.State == old(r.State) && r.cr == old(r.cr) && r.CheckUTF8 == old(r.CheckUTF8) && r.SkipHeaderCheck == old(r.SkipHeaderCheck) && r.MaxFrameSize == old(r.MaxFrameSize) && r.State&^ws.StateFragmented == old(r.State)&^ws.StateFragmented
 //@   assigns r.raw, r.frame, r.utf8, r.opCode
 
 //@ func Reader.resetFragment
 //@   props C04 C07
+//@   sig r ->
 //@   ensures [frag] r.frame == nil && r.raw.R == nil && r.raw.N == 0 && r.utf8.Source == nil
 //@   ensures [keep] r.utf8.state == old(r.utf8.state) && r.utf8.codep == old(r.utf8.codep) && r.opCode == old(r.opCode) && r.State == old(r.State) && r.Source == old(r.Source) && r.cr == old(r.cr)
 //@   assigns r.raw, r.frame, r.utf8.Source
@@ -830,6 +873,7 @@ func sameHdrButRsv(a, b ws.Header) bool {
 
 //@ func Reader.NextFrame
 //@   props C04 C05 C07 C13 C15 C16
+//@   sig r -> hdr err
 //@   locals n:int64 frame:io.Reader x:RecvExtension cb:FrameHandlerFunc cb:FrameHandlerFunc
 //@   call Reader.fragmented inline
 //@   invoke callback:wsutil.FrameHandlerFunc assigns (&r.raw).N, r.cr.pos, instream(r.Source)
@@ -866,6 +910,7 @@ func iteReader(c bool, a, b io.Reader) io.Reader {
 
 //@ func ControlHandler.closeWithProtocolError
 //@   props C08
+//@   sig c reason -> _
 //@   requires [dst] c.Dst != nil && reason != nil
 //@   ensures  [frame] result == nil ==> outByte(c.Dst, old(outLen(c.Dst))) == 0x88 && (outByte(c.Dst, old(outLen(c.Dst))+1)&0x80 != 0) == clientSide(c.State) && int(outByte(c.Dst, old(outLen(c.Dst))+1)&0x7f) <= 125 && int(outByte(c.Dst, old(outLen(c.Dst))+1)&0x7f) >= 2
 //@   ensures  [len]   result == nil ==> outLen(c.Dst) == old(outLen(c.Dst))+2+iteInt(clientSide(c.State), 4, 0)+int(outByte(c.Dst, old(outLen(c.Dst))+1)&0x7f)
@@ -879,6 +924,7 @@ func iteReader(c bool, a, b io.Reader) io.Reader {
 // payload counter and the UTF-8 state; what is proved is what Read makes of its answer.
 //@ func Reader.Read
 //@   props C04 C07 C16 C18 C05 C15
+//@   sig r p -> n err
 //@   call Reader.fragmented inline
 //@   invoke io.Reader.Read assigns (&r.raw).N, (&r.utf8).state, (&r.utf8).codep, (&r.utf8).accepted, r.cr.pos, bytes(p), instream(r.Source)
 //@   invoke io.Reader.Read ensures [rejstate] inErr(r.Source) != ErrInvalidUTF8 && c_err == ErrInvalidUTF8 ==> r.utf8.state == 12
@@ -900,6 +946,7 @@ func iteReader(c bool, a, b io.Reader) io.Reader {
 // Discard skips the rest of the current message, fragment by fragment, and leaves the reader idle.
 //@ func Reader.Discard
 //@   props C04 C16 C18 C05 C15
+//@   sig r -> err
 //@   call Reader.fragmented inline
 //@   requires [inv]  invReader(r) && streamOK(r.Source) && len(r.Extensions) == 0 && r.OnContinuation == nil && r.frame != nil
 //@   ensures  [idle] idleReader(r) && r.Source == old(r.Source)
@@ -918,6 +965,7 @@ func iteReader(c bool, a, b io.Reader) io.Reader {
 // a ControlWriter whose buffer is p itself; that call is abstracted (its content is not proved here).
 //@ func ControlHandler.HandleClose
 //@   props C08 C15 C17
+//@   sig c h -> _
 //@   call WriteHeader inline
 //@   call ControlWriter.Write havoc
 //@   call ControlWriter.Flush havoc
@@ -933,6 +981,7 @@ func iteReader(c bool, a, b io.Reader) io.Reader {
 
 //@ func ControlHandler.HandlePing
 //@   props C08 C15 C17
+//@   sig c h -> _
 //@   call WriteHeader inline
 //@   call io.Copy havoc
 //@   call ControlWriter.Flush havoc
@@ -942,12 +991,14 @@ func iteReader(c bool, a, b io.Reader) io.Reader {
 
 //@ func ControlHandler.HandlePong
 //@   props C08 C15
+//@   sig c h -> _
 //@   call io.CopyBuffer havoc
 //@   requires [hdr]  c.Src != nil && 0 <= h.Length && h.Length <= 125
 //@   ensures  [empty] h.Length == 0 ==> result == nil
 
 //@ func ControlHandler.Handle
 //@   props C08 C15
+//@   sig c h -> _
 //@   call ControlHandler.HandlePing havoc
 //@   call ControlHandler.HandlePong havoc
 //@   call ControlHandler.HandleClose havoc
@@ -967,6 +1018,7 @@ func iteReader(c bool, a, b io.Reader) io.Reader {
 
 //@ func GetWriter
 //@   props C18 C13 C17
+//@   sig dest state op n -> _
 //@   requires [n] 0 <= n && n <= 1<<39 && (n <= 2 || n > 14) && op < 16 && DefaultWriteBuffer > 14 && DefaultWriteBuffer <= 1<<40
 //@   ensures  [new]  result != nil && result.dest == dest && result.state == state && result.op == op
 //@   ensures  [zero] result.n == 0 && !result.dirty && result.fseq == 0 && len(result.extensions) == 0 && !result.noFlush && result.err == nil
@@ -974,6 +1026,7 @@ func iteReader(c bool, a, b io.Reader) io.Reader {
 
 //@ func PutWriter
 //@   props C18 C13 C17
+//@   sig w ->
 //@   requires [room] w != nil && len(w.raw) > 14 && len(w.raw) <= 1<<47
 //@   ensures  [drop] w.dest == nil && w.n == 0 && w.err == nil && len(w.extensions) == 0 && !w.noFlush && !w.dirty && w.fseq == 0
 //@   assigns *w
@@ -981,6 +1034,7 @@ func iteReader(c bool, a, b io.Reader) io.Reader {
 // writeFrame / WriteMessage: one frame, the caller's payload left untouched (C06, C17).
 //@ func writeFrame
 //@   props C06 C17 C16
+//@   sig w s op fin p -> _
 //@   requires [w]    w != nil && op < 16 && len(p) <= 1<<47
 //@   cases side: s&ws.StateClientSide != 0 | !(s&ws.StateClientSide != 0)
 //@   cases len: int64(len(p)) <= 125 && int64(len(p)) <= 65535 | !(int64(len(p)) <= 125) && int64(len(p)) <= 65535 | !(int64(len(p)) <= 125) && !(int64(len(p)) <= 65535)
@@ -993,6 +1047,7 @@ func iteReader(c bool, a, b io.Reader) io.Reader {
 
 //@ func WriteMessage
 //@   props C06 C17 C16
+//@   sig w s op p -> _
 //@   requires [w]    w != nil && op < 16 && len(p) <= 1<<47
 //@   ensures  [len]   result == nil ==> outLen(w) == old(outLen(w))+specHdrLen(len(p), clientSide(s))+len(p)
 //@   ensures  [b0]    result == nil ==> outByte(w, old(outLen(w))) == 0x80|byte(op)
@@ -1003,19 +1058,23 @@ func iteReader(c bool, a, b io.Reader) io.Reader {
 // Small constructors and setters (C04, C06, C18).
 //@ func NewClientSideReader
 //@   props C04 C18
+//@   sig r -> _
 //@   ensures [new] result != nil && result.Source == r && result.State == ws.StateClientSide && idleReader(result) && !result.CheckUTF8 && len(result.Extensions) == 0
 
 //@ func NewServerSideReader
 //@   props C04 C18
+//@   sig r -> _
 //@   ensures [new] result != nil && result.Source == r && result.State == ws.StateServerSide && idleReader(result) && !result.CheckUTF8 && len(result.Extensions) == 0
 
 //@ func Writer.DisableFlush
 //@   props C06
+//@   sig w ->
 //@   ensures [set] w.noFlush
 //@   assigns w.noFlush
 
 //@ func NextReader
 //@   props C04 C16 C05 C15
+//@   sig r s -> _ _ _
 //@   requires [src] r != nil && streamOK(r)
 //@   ensures  [err] result2 != nil ==> result1 == nil
 //@   ensures  [cut] !(inEnd(r)-old(inPos(r)) >= 2 && inEnd(r)-old(inPos(r)) >= ws.VSpecNeed(inByte(r, old(inPos(r))+1))) ==> result2 != nil
@@ -1047,6 +1106,7 @@ func iteReader(c bool, a, b io.Reader) io.Reader {
 
 //@ func DebugDialer.Dial
 //@   props C15
+//@   sig d ctx urlstr -> conn br hs err
 //@   call ws.Dialer.Dial havoc
 //@   requires [d] d != nil
 //@   ensures [t] true
@@ -1070,6 +1130,7 @@ func ufIsCtlHandler(f FrameHandlerFunc, w io.Writer, s ws.State) bool { return t
 // contracts); that it drains the frame it is given is assumed.
 //@ func readData
 //@   props C08 C04 C05 C07 C15
+//@   sig rw s want -> _ _ _
 //@   locals controlHandler:FrameHandlerFunc rd:Reader hdr:ws.Header err:error err:error err:error bts:[]byte
 //@   call ReadAll havoc
 //@   callsite Reader.NextFrame requires [wired] ufIsCtlHandler(rd.OnIntermediate, rw, s) && rd.Source == io.Reader(rw) && rd.State&^ws.StateFragmented == s&^ws.StateFragmented && rd.CheckUTF8 && !rd.SkipHeaderCheck
@@ -1090,6 +1151,7 @@ func ufIsCtlHandler(f FrameHandlerFunc, w io.Writer, s ws.State) bool { return t
 
 //@ func ReadMessage$1
 //@   props C04 C17 C15 C16
+//@   sig hdr src -> _
 //@   requires [src] src != nil && streamOK(src) && 0 <= hdr.Length && hdr.Length <= 125
 //@   ensures [data]  result == nil ==> len(m[len(m)-1].Payload) == inEnd(src)-old(inPos(src)) && forall(0, len(m[len(m)-1].Payload), func(k int) bool { return m[len(m)-1].Payload[k] == inByte(src, old(inPos(src))+k) })
 //@   ensures [add]   result == nil ==> len(m) == old(len(m))+1 && m[len(m)-1].OpCode == hdr.OpCode && (fresh(m[len(m)-1].Payload) || len(m[len(m)-1].Payload) == 0)
@@ -1099,6 +1161,7 @@ func ufIsCtlHandler(f FrameHandlerFunc, w io.Writer, s ws.State) bool { return t
 // fragments; a clean end of src is not an error and leaves the message open (dirty).
 //@ func Writer.ReadFrom
 //@   props C06 C16
+//@   sig w src -> n err
 //@   locals nn:int nr:int
 //@   requires [ready] writerReady(w) && src != nil && streamOK(src) && len(w.raw) <= 1<<40
 //@   ensures  [count] n == int64(inPos(src)-old(inPos(src))) && n >= 0
